@@ -23,6 +23,7 @@ func init() {
 	registry["C07"] = func(c *Ctx) { genCore(c, "C07") }
 	registry["C08"] = func(c *Ctx) { genCore(c, "C08") }
 	registry["C14"] = func(c *Ctx) { genCore(c, "C14") }
+	registry["C06core"] = func(c *Ctx) { genCore(c, "C06") }
 	registry["CORESRC"] = coreOne
 }
 
@@ -188,17 +189,17 @@ func genCore(c *Ctx, mode string) {
 			c.Em.Emit(rec)
 		}
 	}
-	n := map[string]int{"C03": 2000, "C07": 300, "C08": 800, "C14": 1500}[mode]
+	n := map[string]int{"C03": 2000, "C07": 300, "C08": 800, "C14": 1500, "C06": 1200}[mode]
 	if c.Thorough() {
 		n *= 10
 	}
-	bias := map[string]byte{"C03": 'F', "C07": 0, "C08": 'E', "C14": 'T'}[mode]
+	bias := map[string]byte{"C03": 'F', "C07": 0, "C08": 'E', "C14": 'T', "C06": 'K'}[mode]
 	for i := 0; i < n; i++ {
 		root, feat := genCoreProgram(c.Rng, 2+c.Rng.Intn(2), bias)
 		tags := append(featTags(feat), "plain")
 		src := root.text()
 		switch mode {
-		case "C03", "C14":
+		case "C03", "C14", "C06":
 			if !c.Mine() {
 				continue
 			}
